@@ -196,3 +196,15 @@ Theorem c07_unrepaired_thrift_matcher_collides :
   thrift_match_sw false [1;1;0;1;218; 188;0;0;7; 1; 0;0;0;100; 0;0; 0;0; 0;0;0;0] = MSuccess /\
   thrift_match [1;1;0;1;218; 188;0;0;7; 1; 0;0;0;100; 0;0; 0;0; 0;0;0;0] = MFailed.
 Proof. exact unrepaired_thrift_collides. Qed.
+
+(* position of the LessLen gate in boltProtocol.Decode / boltv2Protocol.Decode (read from the source): the version switch on
+   the first byte comes first.  With the gate in front of it the boltv2 entry would hold back a complete 20-byte v1 response
+   (the v1 heartbeat ack) that the bolt entry - and the code in the tree through either entry - extracts: *)
+Theorem c07_bolt_gate_after_version_switch : MV.Gen.CodecSrc.bolt_gate_first = false.
+Proof. exact eq_refl. Qed.
+Theorem c07_gate_first_breaks_family :
+  let hb := [1;0;0;0;1; 0;0;0;7; 1; 0;0; 0;0; 0;0; 0;0;0;0] in
+  res (boltv2_decode_sw true true (view_of hb)) = NeedMore /\
+  (exists c, res (bolt_decode_sw true true (view_of hb)) = Ok (c, 20)) /\
+  (exists c, res (boltv2_decode (view_of hb)) = Ok (c, 20)).
+Proof. exact gate_first_breaks_family. Qed.
